@@ -222,6 +222,28 @@ def fallback(run, fx):
                          '(gid source `%s`, guard %s)' % (src, [f[:3] for f in fs]))
 
 
+def lookupfirst(run, fx):
+    """gr_face_is_char_supported answers from the font's cmap (and the pseudo-glyph map): no path returns before the cmap was asked.
+    A pre-filter on the code point would make the answer differ from the glyph a segment starts with for the filtered values."""
+    fn = fx.one('gr_face_is_char_supported')
+    look = [e for _, e in fn.elements() if e['k'] in ('CXXOperatorCallExpr', 'CXXMemberCallExpr') and (e.get('fq') or '').endswith('Cmap::operator[]')]
+    inst = 'gr_face_is_char_supported asks the cmap on every path'
+    if not look:
+        run.broken('FALLBACK', inst, 'no Cmap::operator[] call in gr_face_is_char_supported', fn.where())
+        return
+    d = fn.dominators()
+    lb = {fn.block_of[e['i']] for e in look}
+    rets = [e for _, e in fn.elements() if e['k'] == 'ReturnStmt']
+    bad = [r for r in rets if not (d[fn.block_of[r['i']]] & lb) or
+           (fn.block_of[r['i']] in lb and not any(fn.pos_of[l_['i']] < fn.pos_of[r['i']] for l_ in look if fn.block_of[l_['i']] == fn.block_of[r['i']]) and not (d[fn.block_of[r['i']]] - {fn.block_of[r['i']]}) & lb)]
+    if bad:
+        fs = [f[:3] for f in dom.facts_at(fn, bad[0]['i'])]
+        run.violated('FALLBACK', inst, fn.loc(bad[0]), 'gr_face_is_char_supported returns %s without having looked the character up in the cmap (under %s): for those code points '
+                     'the answer no longer is the glyph the font maps them to' % (fn.render(bad[0]), fs[:4]))
+    else:
+        run.held('FALLBACK', inst, fn.loc(look[0]), 'the cmap lookup dominates all %d returns' % len(rets))
+
+
 def cmapbound(run, fx):
     op = fx.one('graphite2::CachedCmap::operator[]')
     usv = op.f['params'][0]['n']
@@ -306,6 +328,46 @@ def narrowread(run, fx, rule='NARROWREAD'):
                     wt, wr = int_type((t or '').replace('const ', '')), int_type(r.get('t'))
                     if wt and wr and wt[0] < wr[0]:
                         bad.append((fn, e, t, r.get('t')))
+    # the same value forwarded through a local and then IMPLICITLY narrowed where it is handed on (call argument, return, operand):
+    # `uint32 id = be::read<uint32>(p); f(id)` with f(uint16).  Explicit casts are the author's statement and are not counted.
+    fwd = 0
+    for fn in fx.all_fns():
+        if not fn.file.startswith('src/') or fn.f.get('implicit'):
+            continue
+        wide = {}
+        for _, e in fn.elements():
+            if e['k'] == 'DeclStmt':
+                for d in e.get('decls', []):
+                    if d.get('init') is not None and d.get('dk') == 'Var':
+                        r = fn.strip_all_casts(d['init'])
+                        if r['k'] == 'CallExpr' and (r.get('fq') or '').split('<')[0].endswith(('be::read', 'be::peek')):
+                            wr = int_type(r.get('t'))
+                            wt = int_type((d.get('t') or '').replace('const ', ''))
+                            if wr and wt and wt[0] >= wr[0]:
+                                wide[d['vid']] = (wr[0], d['n'], r.get('t'))
+        if not wide:
+            continue
+        # locals that are re-assigned later do not stand for the table field any more
+        for _, e in fn.elements():
+            if e['k'] in ('BinaryOperator', 'CompoundAssignOperator') and e['op'].endswith('=') and e['op'] not in ('==', '!=', '<=', '>='):
+                l = fn.strip(e['c'][0])
+                if l['k'] == 'DeclRefExpr' and l.get('vid') in wide:
+                    wide.pop(l['vid'])
+            elif e['k'] == 'UnaryOperator' and e['op'] in ('pre++', 'pre--', 'post++', 'post--'):
+                l = fn.strip(e['c'][0])
+                if l['k'] == 'DeclRefExpr' and l.get('vid') in wide:
+                    wide.pop(l['vid'])
+        for _, e in fn.elements():
+            if e['k'] == 'ImplicitCastExpr' and e.get('ck') == 'IntegralCast':
+                src = fn.N(e['c'][0])
+                if src['k'] == 'ImplicitCastExpr' and src.get('ck') == 'LValueToRValue':
+                    src = fn.N(src['c'][0])
+                if src['k'] == 'DeclRefExpr' and src.get('vid') in wide:
+                    fwd += 1
+                    wt = int_type(e.get('t'))
+                    if wt and wt[0] < wide[src['vid']][0]:
+                        bad.append((fn, e, e.get('t'), '%s (local %s)' % (wide[src['vid']][2], wide[src['vid']][1])))
+    total += fwd
     if total < 60:
         run.broken(rule, 'census', 'only %d stores of be::read / be::peek results found (98 confirmed)' % total)
         return
@@ -358,5 +420,6 @@ def run(run):
     selectors(run, fx)
     planeroute(run, fx)
     fallback(run, fx)
+    lookupfirst(run, fx)
     cmapbound(run, fx)
     narrowread(run, fx)
